@@ -39,7 +39,7 @@ extern "C" int clock_nanosleep(clockid_t id, int flags, const struct timespec *r
 struct Deliv { char side; int epoch; std::string id; unsigned seq; bool possdup; };
 static std::mutex g_mx;
 static std::vector<Deliv> g_deliv;
-static std::vector<std::string> g_logouts;
+static std::vector<std::string> g_logouts, g_admin;
 static int g_epoch = 0;
 
 struct SideRouter : UTEST::utest_Router {
@@ -65,6 +65,31 @@ public:
 		text t; if (msg->get(t)) { std::lock_guard<std::mutex> g(g_mx); g_logouts.push_back(t()); }
 		return Session::handle_logout(seqnum, msg);
 	}
+	void recover_seqnums() override {
+		unsigned s0 = 0, r0 = 0; const bool ok = _persist && _persist->get(s0, r0);
+		Session::recover_seqnums();
+		std::lock_guard<std::mutex> g(g_mx); g_admin.push_back(std::string(1, _router.side) + " recover: persister " + (_persist ? "present" : "NULL") + " get=" + std::to_string(ok) + " " + std::to_string(s0) + "," + std::to_string(r0) + " -> " + std::to_string((unsigned)_next_send_seq) + "/" + std::to_string((unsigned)_next_receive_seq));
+	}
+	bool handle_logon(const unsigned seqnum, const Message *msg) override {
+		const bool r = Session::handle_logon(seqnum, msg);
+		{ std::lock_guard<std::mutex> g(g_mx); g_admin.push_back(std::string(1, _router.side) + " got Logon " + std::to_string(seqnum) + " (expecting " + std::to_string((unsigned)_next_receive_seq) + ", own next send " + std::to_string((unsigned)_next_send_seq) + ")"); }
+		return r;
+	}
+	bool handle_reject(const unsigned seqnum, const Message *msg) override {
+		text t; msg->get(t); ref_seq_num rs; msg->get(rs);
+		std::lock_guard<std::mutex> g(g_mx); g_admin.push_back(std::string(1, _router.side) + " got Reject ref=" + std::to_string(rs()) + " '" + t() + "'");
+		return true;
+	}
+	bool handle_sequence_reset(const unsigned seqnum, const Message *msg) override {
+		new_seq_num nsn; msg->get(nsn);
+		{ std::lock_guard<std::mutex> g(g_mx); g_admin.push_back(std::string(1, _router.side) + " got SeqReset " + std::to_string(seqnum) + "->" + std::to_string(nsn()) + " (expecting " + std::to_string((unsigned)_next_receive_seq) + ")"); }
+		return Session::handle_sequence_reset(seqnum, msg);
+	}
+	bool handle_resend_request(const unsigned seqnum, const Message *msg) override {
+		begin_seq_num b; end_seq_num e; msg->get(b); msg->get(e);
+		{ std::lock_guard<std::mutex> g(g_mx); g_admin.push_back(std::string(1, _router.side) + " got ResendReq [" + std::to_string(b()) + "," + std::to_string(e()) + "] (next send " + std::to_string((unsigned)_next_send_seq) + ")"); }
+		return Session::handle_resend_request(seqnum, msg);
+	}
 	unsigned ns() const { return _next_send_seq; }
 	unsigned nr() const { return _next_receive_seq; }
 	Persister *persister() { return _persist; }
@@ -84,7 +109,7 @@ struct Side {
 	std::unique_ptr<AppSession> ses;
 	Connection *conn = nullptr;
 	Poco::Net::StreamSocket *sock = nullptr;
-	Persister *own_persist = nullptr;	// initiator only (an acceptor session deletes its own)
+	Persister *own_persist = nullptr;	// deleted here: the connection is deleted before the session, so not even an acceptor session deletes it
 	int fd = -1;
 	void destroy() {
 		if (ses) { try { ses->stop(); } catch (...) {} }
@@ -100,7 +125,7 @@ static void two_case(long long n, uint64_t seed, const std::string& dir)
 {
 	vh::Rng r(seed * 48271 + n);
 	R.case_mark(n);
-	{ std::lock_guard<std::mutex> g(g_mx); g_deliv.clear(); g_logouts.clear(); g_epoch = 0; }
+	{ std::lock_guard<std::mutex> g(g_mx); g_deliv.clear(); g_logouts.clear(); g_admin.clear(); g_epoch = 0; }
 	const ProcessModel pm = (n % 2) ? pm_thread : pm_pipeline;
 	const std::string base = dir + "/c21_" + std::to_string(n);
 	int lsn = socket(AF_INET, SOCK_STREAM, 0);
@@ -118,8 +143,10 @@ static void two_case(long long n, uint64_t seed, const std::string& dir)
 	auto connect_both = [&]() -> bool {
 		{ std::lock_guard<std::mutex> g(g_mx); ++g_epoch; }
 		LoginParameters lp; lp._login_retries = 1; lp._connect_timeout = 2; lp._always_seqnum_assign = false;
-		auto *fpi = new FilePersister; fpi->initialise(dir, "c21_" + std::to_string(n) + ".I", first_connect);
-		auto *fpa = new FilePersister; fpa->initialise(dir, "c21_" + std::to_string(n) + ".A", first_connect);
+		auto *fpi = new FilePersister; const bool oki = fpi->initialise(dir, "c21_" + std::to_string(n) + ".I", first_connect);
+		auto *fpa = new FilePersister; const bool oka = fpa->initialise(dir, "c21_" + std::to_string(n) + ".A", first_connect);
+		unsigned cs = 0, cr = 0; const bool hc = fpa->get(cs, cr);
+		{ std::lock_guard<std::mutex> g(g_mx); g_admin.push_back("epoch " + std::to_string(g_epoch) + ": stores opened " + std::to_string(oki) + "/" + std::to_string(oka) + ", acceptor control " + (hc ? std::to_string(cs) + "," + std::to_string(cr) : "none")); }
 		first_connect = false;
 		I.own_persist = fpi;
 		I.ses.reset(new AppSession(UTEST::ctx(), SessionID(UTEST::ctx()._beginStr, "INI", "ACC"), fpi, 'I'));
@@ -129,6 +156,7 @@ static void two_case(long long n, uint64_t seed, const std::string& dir)
 		if (I.ses->start(I.conn, false)) { return false; }
 		const int fd = accept(lsn, nullptr, nullptr);
 		A.fd = fd;
+		A.own_persist = fpa;
 		A.sock = new Poco::Net::StreamSocket(new Poco::Net::StreamSocketImpl(fd));
 		A.ses.reset(new AppSession(UTEST::ctx(), sender_comp_id("ACC"), fpa, 'A'));
 		A.ses->set_login_parameters(lp);
@@ -144,6 +172,9 @@ static void two_case(long long n, uint64_t seed, const std::string& dir)
 			const unsigned cur[4] = {I.ses->ns(), I.ses->nr(), A.ses->ns(), A.ses->nr()};
 			const bool agree = I.ses->st() == States::st_continuous && A.ses->st() == States::st_continuous && cur[0] == cur[3] && cur[2] == cur[1];
 			if (agree && !memcmp(cur, last, sizeof cur)) { if (++stable > 20) return 1; } else stable = 0;
+			// quiet but not in agreement: a message lost in flight shows only when the next one arrives; in production the heartbeat
+			// does that within HeartBtInt - here (timers stopped) both sides send one every 300 ms of disagreement
+			if (!agree && i % 300 == 299 && I.ses->st() == States::st_continuous && A.ses->st() == States::st_continuous) { /* never before the logon is complete */ try { I.ses->send(I.ses->generate_heartbeat("")); A.ses->send(A.ses->generate_heartbeat("")); } catch (...) {} }
 			memcpy(last, cur, sizeof cur);
 			if (I.ses->is_shutdown() || A.ses->is_shutdown()) {
 				// give the terminating side a moment to finish, then report
@@ -209,7 +240,9 @@ static void two_case(long long n, uint64_t seed, const std::string& dir)
 			trace += "]";
 			if (!connect_both()) { inconclusive = true; R.viol("inconclusive:connect-failed", trace); break; }
 			const int s = settle("after reconnect");
-			if (s < 0) { R.viol("oracle:sessions-do-not-re-establish|" + cls, d); failed = true; break; }
+			if (s < 0) {
+				std::string adm; { std::lock_guard<std::mutex> g(g_mx); for (auto& x : g_admin) adm += x + "; "; }
+				R.viol("oracle:sessions-do-not-re-establish|" + cls, std::string(d) + " admin-events: " + adm.substr(adm.size() > 1200 ? adm.size() - 1200 : 0)); failed = true; break; }
 			if (s == 0) { inconclusive = true; R.viol("inconclusive:settle-watchdog", d); break; }
 		}
 	}
@@ -238,7 +271,8 @@ static void two_case(long long n, uint64_t seed, const std::string& dir)
 				if (snd.ses) for (unsigned q = 1; q < snd.ses->ns(); ++q) { f8String to_; if (snd.ses->persister()->get(q, to_) && to_.find("\00111=" + id + "\001") != f8String::npos) { stored_at = q; break; } }
 				snprintf(d, sizeof d, "%s (sent by %c, send() returned true) was never delivered to %c; %zu sent, %zu delivered; stored by the sender under number %ld, sender next send %u, receiver expects %u; faults=%d trace=%s", id.c_str(), from, to, want.size(), first_order.size(),
 					stored_at, snd.ses ? snd.ses->ns() : 0, rcv.ses ? rcv.ses->nr() : 0, faults, trace.c_str());
-				R.viol("oracle:message-never-delivered|" + cls, d); failed = true; break;
+				std::string adm; { std::lock_guard<std::mutex> g(g_mx); for (auto& x : g_admin) adm += x + "; "; }
+				R.viol("oracle:message-never-delivered|" + cls, std::string(d) + " admin-events: " + adm.substr(adm.size() > 1500 ? adm.size() - 1500 : 0)); failed = true; break;
 			}
 			if (!failed) {
 				// first deliveries in send order (ids that were never reported as sent - send() returned false but the bytes went out - are skipped)
